@@ -11,7 +11,9 @@ package httpserver
 import (
 	"encoding/json"
 	"fmt"
+	"net"
 	"net/textproto"
+	"strings"
 	"testing"
 
 	"github.com/megaease/easegress/pkg/supervisor"
@@ -270,6 +272,90 @@ func c12GenReloadCase(r *vfRand) *c01In {
 	return in
 }
 
+// c12GenHostMixCase: several hosts x several clients x rule-level (and path-level) IP
+// filters, repeated requests so that cache hits follow cache hits, and 404 / 405 / routed
+// outcomes on filtered and on unfiltered hosts.  Rule 1 matches only the "internal" host
+// (a name or the IPv6 literal ::1) and carries a filter blocking client X; a later
+// catch-all rule owns the paths; the sequence is built from blocks in which X warms the
+// cache on an unfiltered host, an allowed client Y fills the entry of the filtered host,
+// and X then asks for that entry.
+func c12GenHostMixCase(r *vfRand) *c01In {
+	x := c01Pick(r, []string{"10.0.0.8", "8.8.8.8", "2001:db8::1"})
+	y := "192.168.7.7"
+	blockX := func() *c01Filter {
+		if r.Chance(1, 4) {
+			return &c01Filter{BlockByDefault: true, AllowIPs: []string{y, "10.0.1.1"}, BlockIPs: []string{}}
+		}
+		return &c01Filter{BlockByDefault: false, AllowIPs: []string{}, BlockIPs: []string{x}}
+	}
+	internal := c01Pick(r, []string{"internal.example.com", "::1", "Internal.Example.com", "[::1]", "a.com"})
+	mk := func(path, prefix, backend string, methods []string) c01Path {
+		return c01Path{Path: path, Prefix: prefix, Methods: methods, Backend: backend, Headers: []c01Header{}}
+	}
+	in := &c01In{Server: c01Server{Backends: c01Backends, CacheSize: r.PickInt(8, 100, 100)}}
+	r1 := c01Rule{Host: internal, Filter: blockX(), Paths: []c01Path{}}
+	if r.Chance(1, 3) {
+		r1.Paths = append(r1.Paths, mk("/internal-only", "", "C", nil))
+	}
+	owner := c01Rule{Paths: []c01Path{mk("/api", "", "A", []string{"GET", "POST"}), mk("", "/files/", "B", nil)}}
+	switch r.Intn(3) {
+	case 0:
+		owner.HostRegexp = `.*`
+	case 1:
+		owner.HostRegexp = `^(internal|www|Internal)\.|^::1$|^\[::1\]$|^a\.com$|^www`
+	}
+	if r.Chance(1, 3) {
+		owner.Paths[r.Intn(2)].Filter = blockX() // path-level instead of / in addition to rule-level
+		if r.Bool() {
+			r1.Filter = nil
+		}
+	}
+	in.Server.Rules = []c01Rule{r1}
+	if r.Chance(1, 3) { // an unfiltered host-specific rule in between
+		in.Server.Rules = append(in.Server.Rules, c01Rule{Host: "www.example.com", Paths: []c01Path{mk("/www-only", "", "C", nil)}})
+	}
+	in.Server.Rules = append(in.Server.Rules, owner)
+
+	intHost := internal
+	if strings.Contains(internal, ":") && !strings.HasPrefix(internal, "[") {
+		intHost = "[" + internal + "]" + r.PickStr(":8080", ":80")
+	} else if r.Bool() {
+		intHost += r.PickStr(":8080", ":80")
+	}
+	otherHost := r.PickStr("www.example.com", "www.example.com:80", "other.org", "[::2]:80")
+	type target struct{ method, path string }
+	targets := []target{{"GET", "/api"}, {"DELETE", "/api"}, {"GET", "/nothing"}, {"GET", "/files/x"}, {"PUT", "/zz"}}
+	idx := map[string]int{}
+	add := func(host, ip string, t target) int {
+		k := host + "|" + ip + "|" + t.method + "|" + t.path
+		if i, ok := idx[k]; ok {
+			return i
+		}
+		in.Reqs = append(in.Reqs, c01Req{Host: host, Method: t.method, Path: t.path, Headers: [][2]string{}, Remote: net.JoinHostPort(ip, "4321")})
+		idx[k] = len(in.Reqs) - 1
+		return idx[k]
+	}
+	nb := r.Range(2, 5)
+	for b := 0; b < nb; b++ {
+		t := targets[r.Intn(len(targets))]
+		xa, yb, xb := add(otherHost, x, t), add(intHost, y, t), add(intHost, x, t)
+		var block []int
+		switch r.Intn(3) {
+		case 0:
+			block = []int{xa, xa, yb, xb}
+		case 1:
+			block = []int{yb, xa, xa, xb}
+		default:
+			block = []int{yb, yb, xa, xa, xa, xb, xb}
+		}
+		in.Seq = append(in.Seq, block...)
+		if r.Chance(1, 3) { // some unrelated traffic between the blocks
+			in.Seq = append(in.Seq, add(otherHost, y, targets[r.Intn(len(targets))]))
+		}
+	}
+	return in
+}
+
 func TestVerifC12(t *testing.T) {
 	out := vfOpen(t)
 	defer out.Close()
@@ -293,8 +379,10 @@ func TestVerifC12(t *testing.T) {
 	n := vfN(200)
 	for i := 0; i < n; i++ {
 		var in *c01In
-		if i%6 == 5 || (adv && i%2 == 1) {
+		if i%6 == 5 || (adv && i%4 == 1) {
 			in = c12GenReloadCase(root.Fork(i))
+		} else if i%6 == 2 || (adv && i%4 == 3) {
+			in = c12GenHostMixCase(root.Fork(i))
 		} else {
 			in = c12GenCase(root.Fork(i), adv)
 		}
